@@ -21,6 +21,8 @@ pub enum Case {
         cfg: CtxCfg,
         hist: Vec<Op>,
     },
+    /// exactly four bytes, default context (enumerated sub-domain: does the fourth byte matter?)
+    Quad { b0: u8, b1: u8, b2: u8, b3: u8 },
     /// fewer than three bytes
     Short {
         #[serde(with = "hexv")]
@@ -56,7 +58,7 @@ impl Prop for C17 {
         "C17"
     }
     fn rule(&self) -> String {
-        "enumerated: all 2^24 three-byte prefixes on a default context (both tiers). generated: random prefixes (b1 = 0x0F half of the time) with random continuations of 0-600 bytes on random contexts after random histories, compared with the prefix alone; complete reference-encoded frames whose SMBus command code is replaced (PEC repaired); inputs of length 0-2. oracle: b1 = 0x0F => Ok(b2 + 4), else Err with message type Invalid; equal results for equal prefixes regardless of tail and context; length < 3 => Err (no panic, no Ok). non-trivial = b1 = 0x0F (the accepting branch) or a non-empty tail / short input; enumerated cases are distinct by construction, generated ones by hash".into()
+        "enumerated: all 2^24 three-byte prefixes on a default context (both tiers). generated: random prefixes (b1 = 0x0F half of the time) with random continuations of 0-600 bytes on random contexts after random histories, compared with the prefix alone; complete reference-encoded frames whose SMBus command code is replaced (PEC repaired); complete frames arriving shifted (1-3 leading bytes stripped, 1-2 bytes in front); enumerated four-byte inputs; inputs of length 0-2. oracle: b1 = 0x0F => Ok(b2 + 4), else Err with message type Invalid; equal results for equal prefixes regardless of tail and context; length < 3 => Err (no panic, no Ok). non-trivial = b1 = 0x0F (the accepting branch) or a non-empty tail / short input; enumerated cases are distinct by construction, generated ones by hash".into()
     }
     fn assumptions(&self) -> Vec<String> {
         vec!["the error's DecodeError payload is not demanded, only the message type Invalid".into()]
@@ -71,6 +73,19 @@ impl Prop for C17 {
                 crate::refmodel::fix_pec(&mut p);
                 Case::Tail { b0: p[0], b1: p[1], b2: p[2], tail: p[3..].to_vec(), cfg, hist }
             }),
+            2 => (gen::ref_valid_packet(), 0u8..6, any::<u8>(), any::<u8>(), gen::ctx_cfg()).prop_map(|(p, how, x, y, cfg)| {
+                // a complete valid frame that arrives shifted: leading bytes stripped
+                // (an I2C target controller that swallows the address byte) or extra bytes in front
+                let q: Vec<u8> = match how {
+                    0 => p[1..].to_vec(),
+                    1 => p[2..].to_vec(),
+                    2 => p[3..].to_vec(),
+                    3 => { let mut v = vec![x]; v.extend_from_slice(&p); v }
+                    4 => { let mut v = vec![x, y]; v.extend_from_slice(&p); v }
+                    _ => { let mut v = p.clone(); v[1] = x; v[0] = 0x0F; v }
+                };
+                Case::Tail { b0: q[0], b1: q[1], b2: q[2], tail: q[3..].to_vec(), cfg, hist: Vec::new() }
+            }),
             1 => (proptest::collection::vec(prop_oneof![Just(0x0Fu8), any::<u8>()], 0..=2), gen::ctx_cfg()).prop_map(|(bytes, cfg)| Case::Short { bytes, cfg }),
         ]
         .boxed()
@@ -82,9 +97,9 @@ impl Prop for C17 {
         }
     }
     fn required_labels(&self) -> Vec<&'static str> {
-        vec!["prefix_0f", "prefix_other", "tail", "short0", "short1", "short2"]
+        vec!["prefix_0f", "prefix_other", "quad", "tail", "short0", "short1", "short2"]
     }
-    fn enumerate(&self, _tier: Tier, shard: usize, nshards: usize, f: &mut dyn FnMut(Case)) {
+    fn enumerate(&self, tier: Tier, shard: usize, nshards: usize, f: &mut dyn FnMut(Case)) {
         for b0 in 0u32..256 {
             if (b0 as usize) % nshards != shard {
                 continue;
@@ -95,9 +110,39 @@ impl Prop for C17 {
                 }
             }
         }
+        // four-byte inputs: quick = 6 leading bytes x all b1, b2 x 16 structural fourth bytes;
+        // thorough = every leading byte x all b1, b2 x the 16 structural fourth bytes and,
+        // for the 6 leading bytes, every fourth byte
+        const B0: [u8; 6] = [0x0F, 0x0E, 0x1E, 0x1F, 0x00, 0x46];
+        const B3: [u8; 16] = [0x01, 0x00, 0x0F, 0xFF, 0x02, 0x11, 0x81, 0x21, 0x7E, 0x7F, 0x05, 0x06, 0xC8, 0x80, 0x0E, 0x10];
+        for b0 in 0u32..256 {
+            if (b0 as usize) % nshards != shard {
+                continue;
+            }
+            let special = B0.contains(&(b0 as u8));
+            if !special && tier == Tier::Quick {
+                continue;
+            }
+            for b1 in 0u32..256 {
+                for b2 in 0u32..256 {
+                    if special && tier == Tier::Thorough {
+                        for b3 in 0u32..256 {
+                            f(Case::Quad { b0: b0 as u8, b1: b1 as u8, b2: b2 as u8, b3: b3 as u8 });
+                        }
+                    } else {
+                        for b3 in B3 {
+                            f(Case::Quad { b0: b0 as u8, b1: b1 as u8, b2: b2 as u8, b3 });
+                        }
+                    }
+                }
+            }
+        }
     }
-    fn enumerated_desc(&self, _tier: Tier) -> Option<String> {
-        Some("all 2^24 = 16777216 three-byte prefixes (complete for inputs of exactly three bytes)".into())
+    fn enumerated_desc(&self, tier: Tier) -> Option<String> {
+        Some(match tier {
+            Tier::Quick => "all 2^24 = 16777216 three-byte prefixes (complete for inputs of exactly three bytes); 6291456 four-byte inputs (6 leading bytes x all b1, b2 x 16 structural fourth bytes)".into(),
+            Tier::Thorough => "all 2^24 = 16777216 three-byte prefixes (complete for inputs of exactly three bytes); four-byte inputs: every leading byte x all b1, b2 x 16 structural fourth bytes, and 6 leading bytes x all b1, b2, b3 (about 3.6e8)".into(),
+        })
     }
     fn run(&self, case: &Case) -> CaseResult {
         thread_local! {
@@ -110,6 +155,12 @@ impl Prop for C17 {
                 r.label(if *b1 == 0x0F { "prefix_0f" } else { "prefix_other" });
                 let got = DEFAULT.with(|s| sut::get_length(&s.ctx(), &[*b0, *b1, *b2]));
                 check(&mut r, &got, *b1, *b2, "3-byte input");
+            }
+            Case::Quad { b0, b1, b2, b3 } => {
+                r.nontrivial = true;
+                r.label("quad");
+                let got = DEFAULT.with(|s| sut::get_length(&s.ctx(), &[*b0, *b1, *b2, *b3]));
+                check(&mut r, &got, *b1, *b2, "4-byte input");
             }
             Case::Tail { b0, b1, b2, tail, cfg, hist } => {
                 r.nontrivial = !tail.is_empty();
